@@ -43,16 +43,48 @@ def jit_rows():
             "the verifier refuses TAIL_CALL", cites=("C06/R06.a",)),
         Row("endian", r"^jit::JitCompiler::jit_compile$", r"^panic!unreachable@u8=(212|220)(,(212|220))?;i32!in\[16,32,64\]$", "D3",
             "LE/BE immediates of a verified program are 16/32/64", cites=("C06/R06.b",)),
-        Row("fixup-index", r"^jit::JitCompiler::resolve_jumps$", r"^index:Index<I>>::index\(&\*arg1<&mut jit::JitCompiler>\.pc_locs,", "D3",
+        Row("fixup-index", r"^jit::JitCompiler::resolve_jumps(::\{closure#\d+\})?$", r"^index:Index<I>>::index\(&\*(arg1<&mut jit::JitCompiler>\.pc_locs|upvar<&self\.pc_locs>),", "D3",
             "recorded jump targets are either special anchors or instruction indexes the verifier validated (< n <= len(pc_locs)-1)",
             cites=("C06/R06.b", "R12.j")),
         Row("fixup-arith", r"^jit::JitCompiler::resolve_jumps$", r"^Overflow\((Add|Sub)\)\(", "A",
             "code offsets are below 2^31 (code size bound as above)"),
-        Row("page-round", r"^jit::JitMemory::new$", r"^precond:jit::round_up_to_page<-", "A", "code size is far below usize::MAX - 4096"),
+        Row("page-round", r"^jit::JitMemory::\w+$", r"^precond:jit::round_up_to_page<-", "A", "code size is far below usize::MAX - 4096"),
         Row("fetch", r"::jit_compile$", r"^precond:(jit::)?JitMemory::new<-", "D3",
             "the program is the verified one stored by set_program/new: 8 | len, pc < n under the loop guard, wide loads are not last",
             cites=("C06/R06.d", "C10/R10.b")),
     ]
+
+
+def two_pass(F, gen, ctor="jit::JitMemory::new"):
+    """evaluate the constructor of the code memory with the generator opaque: -> (ok, description)"""
+    import symex
+    fn = F.fns.get(ctor)
+    if not fn or not fn.get("thir"):
+        return False, "%s not found" % ctor
+    ev = symex.Evaluator(F, opaque_calls=lambda q: q == gen or q.endswith("resolve_jumps") or q.endswith("round_up_to_page"))
+    args = [ev.sym_for((q["pat"].get("name") if q.get("pat") and q["pat"].get("k") == "bind" else None) or "p%d" % i, q["ty"]) for i, q in enumerate(fn["thir"]["params"])]
+    outs = ev.run_fn(ctor, args) or []
+    oks = [(v, s) for v, s in outs if isinstance(v, tuple) and len(v) > 2 and v[0] == "struct" and v[2] == "Ok"]
+    if not oks:
+        return False, "no evaluable Ok path"
+    probs, sigs = [], []
+    for v, s in oks:
+        g = [e for e in s.effects if e[0] == "call" and e[1] == gen]
+        sig = [tuple(e[2][2:]) for e in g]
+        sigs.append([[repr(a)[:40] for a in x] for x in sig])
+        if len(g) != 2:
+            probs.append("%d generator runs on a path that returns code memory" % len(g))
+        elif sig[0] != sig[1]:
+            probs.append("the two passes get different arguments")
+        elif not all(any(a == p_ for p_ in args) for a in sig[0]):
+            probs.append("a pass does not get the constructor's own arguments")
+    # the size must come from the counting pass: its `offset` is read in the constructor or a helper of it
+    from dispatch import thir_reach
+    readers = [p for p in thir_reach(F, [ctor]) if p != gen and not p.startswith(gen + "::") and p.startswith("jit::JitMemory") and F.fns[p].get("thir")
+               and any(n.get("k") == "field" and n.get("name") == "offset" for n in walk(F.fns[p]["thir"]["body"]))]
+    if not readers:
+        probs.append("the counting pass's offset is never read")
+    return not probs, sorted(set(probs)) or {"passes": sigs[0], "size_read_in": readers}
 
 
 def cl_rows():
@@ -130,7 +162,7 @@ def _split_base(addr):
 def run(rep, tier):
     cx = Ctx(rep, "std")
     F = cx.F
-    ra = rep.rule("R12.a", "panic inventory of the x86-64 JIT", floor=80)
+    ra = rep.rule("R12.a", "panic inventory of the x86-64 JIT", floor=50)
     inv = cx.inventory()
     roots = [r for r in JIT_ROOTS if r in F.fns]
     sites, reach = inv.run(roots)
@@ -141,29 +173,10 @@ def run(rep, tier):
     # R12.b two-pass sizing
     rb = rep.rule("R12.b", "counting pass and emitting pass run the generator on identical arguments", floor=1)
     gen = cx.roles.jit()
-    ctor = None
-    for p in reach:
-        fn = F.fns[p]
-        if fn.get("thir") and sum(1 for n in walk(fn["thir"]["body"]) if n.get("k") == "call" and callee_path(n) == gen) >= 2:
-            ctor = p
-    ok, found = False, "no function calls the generator twice"
-    if ctor:
-        calls = [n for n in walk(F.fns[ctor]["thir"]["body"]) if n.get("k") == "call" and callee_path(n) == gen]
-        sigs = []
-        for c in calls:
-            sig = []
-            for a in c["args"][2:]:
-                a = strip(a)
-                while a.get("k") in ("ref", "deref", "coerce"):
-                    a = strip(a["e"])
-                sig.append((a.get("k"), a.get("name"), a.get("id")))
-            sigs.append(sig)
-        ok = len(calls) == 2 and sigs[0] == sigs[1] and all(k == "var" for k, _, _ in sigs[0])
-        found = sigs
-        # the size must come from the first pass: `counter.offset` flows into the allocation size
-        size_from_counter = any(n.get("k") == "field" and n.get("name") == "offset" for n in walk(F.fns[ctor]["thir"]["body"]))
-        ok = ok and size_from_counter
-    rep.ob(rb, "two-pass", ok, "argument lists of the two generator calls in %s" % ctor, expected="identical parameter variables; size read from the counting pass", found=found)
+    ok, found = two_pass(F, gen)
+    rep.ob(rb, "two-pass", ok, "generator calls made while building the code memory (helper functions followed)",
+           expected="every path that returns code memory ran the generator exactly twice, on identical program / flags / helpers; the size is read from the counting pass",
+           found=found)
 
     # R12.c raw writes into the code buffer
     rc = rep.rule("R12.c", "raw writes into the code buffer only behind the emit bounds assert or in jump fix-up", floor=5)
@@ -227,7 +240,7 @@ def run(rep, tier):
                expected="offset + n <= contents.len() on the writing path, its exact complement on the panic path", found=probs or "%d writing paths" % nw)
 
     # R12.j jump targets recorded for fix-up
-    rj = rep.rule("R12.j", "x86 JIT: every jump target recorded for fix-up is a constant anchor, pc+1, or the interpreter's own next-pc term for that opcode (the ones the verifier validates)", floor=30)
+    rj = rep.rule("R12.j", "x86 JIT: every jump target recorded for fix-up is a constant anchor, pc+1, or the target the verifier validates for that opcode (pc+1+off for jumps, pc+1+imm for a local call)", floor=30)
     import imodel
     import isa
     import jitmodel
@@ -241,11 +254,15 @@ def run(rep, tier):
                 targets = {it[2][1] for t in tps for it in t["items"] if it[2] is not None and it[2][0] == "reloc"}
                 if not targets:
                     continue
+                # the targets the default verifier validates (the statement of C06): pc+1+off for jumps,
+                # pc+1+imm for a local call - not the interpreter's terms, so that a defect of the interpreter
+                # is not reported against the compilers
+                import vmodel
                 allowed = {nxt}
-                for pth in im.per_opcode(v):
-                    if pth["pc"] is not None:
-                        allowed.add(jitmodel.concretise(pth["pc"], dd, ss) if hasattr(jitmodel, "concretise") else pth["pc"])
-                        allowed.add(pth["pc"])
+                if d["kind"] in ("ja", "jcond"):
+                    allowed.add(vmodel.target("off", 16))
+                if d["kind"] == "call" and ss == 1:
+                    allowed.add(vmodel.target("imm", 32))
                 bad = sorted(T.show(t) for t in targets if not T.is_k(t) and t not in allowed)
                 rep.ob(rj, "opc=%#04x%s" % (v, "/src1" if (d["kind"] == "call" and ss == 1) else ""), not bad,
                        "jump targets recorded by the JIT for opcode %#04x" % v, expected=sorted(T.show(a) for a in allowed), found=bad or sorted(T.show(t) for t in targets))
@@ -352,7 +369,7 @@ def run(rep, tier):
     # ---------------- Cranelift
     cc = Ctx(rep, "cranelift")
     Fc = cc.F
-    rg = rep.rule("R12.a-cl", "panic inventory of the Cranelift compiler", floor=60)
+    rg = rep.rule("R12.a-cl", "panic inventory of the Cranelift compiler", floor=50)
     invc = cc.inventory()
     rootsc = [r for r in CL_ROOTS if r in Fc.fns]
     sitesc, reachc = invc.run(rootsc)
